@@ -194,8 +194,15 @@ def _sym_bin(name, refl):
         if isinstance(other, Iterable) and not isinstance(other, str):
             return NotImplemented       # like a well-behaved number type: let the Stream handle it
         a, b = (other, self) if refl else (self, other)
-        return Sym("%s(%r,%r)" % (name, a, b))
+        return Sym("%s(%s,%s)" % (name, _stable_repr(a), _stable_repr(b)))
     return f
+
+
+def _stable_repr(x):
+    """ repr, made stable for the library's TableLookup (which has none of its own) """
+    if type(x).__name__ == "TableLookup":
+        return "TableLookup(%r, cycles=%r)" % (x.table, x.cycles)
+    return repr(x)
 
 
 for _n in ARITH:
@@ -205,6 +212,14 @@ for _n in CMP:
     setattr(Sym, "__%s__" % _n, _sym_bin(_n, False))
 for _n in UNARY:
     setattr(Sym, "__%s__" % _n, (lambda n: lambda self: Sym("%s(%r)" % (n, self)))(_n))
+
+
+def _install_vec_ops():
+    for n in ARITH:
+        setattr(Vec2, "__%s__" % n, _vec_bin(n, False))
+        setattr(Vec2, "__r%s__" % n, _vec_bin(n, True))
+    for n in ("lt", "le", "gt", "ge"):
+        setattr(Vec2, "__%s__" % n, _vec_cmp(n))
 
 
 class Mat(object):
@@ -231,10 +246,120 @@ class Mat(object):
         return "Mat(%r)" % (self.m,)
 
 
+class Vec2(object):
+    """ exact 2D vector value type: INDEXABLE (`__getitem__`, `__len__`) but no `__iter__`, so it is no
+        `collections.abc.Iterable` although `iter()` accepts it (legacy sequence protocol).  Arithmetic is
+        componentwise (with another Vec2 or with a number), `@` is the dot product. """
+    __slots__ = ("a", "b")
+
+    def __init__(self, a, b):
+        self.a, self.b = a, b
+
+    def __getitem__(self, i):
+        if i in (0, 1):
+            return (self.a, self.b)[i]
+        raise IndexError(i)
+
+    def __len__(self):
+        return 2
+
+    def __repr__(self):
+        return "Vec2(%s, %s)" % (canon(self.a), canon(self.b))
+
+    def __eq__(self, o):
+        if not isinstance(o, Vec2):
+            return NotImplemented
+        return bool(self.a == o.a) and bool(self.b == o.b)
+
+    def __ne__(self, o):
+        if not isinstance(o, Vec2):
+            return NotImplemented
+        return not (bool(self.a == o.a) and bool(self.b == o.b))
+
+    __hash__ = None
+
+
+def _vec_bin(name, refl):
+    fn = getattr(operator, "__%s__" % name)
+
+    def f(self, other, *_):
+        if isinstance(other, Iterable) and not isinstance(other, str):
+            return NotImplemented       # let the Stream handle it
+        if isinstance(other, (Indexable, LenIndexable)):
+            return NotImplemented
+        oa, ob = (other.a, other.b) if isinstance(other, Vec2) else (other, other)
+        if name == "matmul":
+            if not isinstance(other, Vec2):
+                return NotImplemented
+            return self.a * oa + self.b * ob
+        if refl:
+            return Vec2(fn(oa, self.a), fn(ob, self.b))
+        return Vec2(fn(self.a, oa), fn(self.b, ob))
+    return f
+
+
+def _vec_cmp(name):
+    fn = getattr(operator, "__%s__" % name)
+
+    def f(self, other):
+        if not isinstance(other, Vec2):
+            return NotImplemented
+        return fn((self.a, self.b), (other.a, other.b))
+    return f
+
+
+class Indexable(object):
+    """ only `__getitem__` (no `__len__`, no `__iter__`, no arithmetic): `iter()` walks it, `isinstance(·, Iterable)` is False """
+    def __init__(self, xs):
+        self.xs = list(xs)
+
+    def __getitem__(self, i):
+        return self.xs[i]
+
+    def __repr__(self):
+        return "Indexable([%s])" % ", ".join(canon(x) for x in self.xs)
+
+
+class LenIndexable(Indexable):
+    """ `__len__` + `__getitem__`, still no `__iter__` """
+    def __len__(self):
+        return len(self.xs)
+
+    def __repr__(self):
+        return "LenIndexable([%s])" % ", ".join(canon(x) for x in self.xs)
+
+
+OBJECT_KEYS = ("V", "G", "LG", "P", "TL")       # element encodings of operand OBJECTS (see `dec_val`)
+
+
+def is_object_enc(j):
+    return isinstance(j, dict) and any(k in j for k in OBJECT_KEYS)
+
+
+def observe_operand(v):
+    """ the observable predicates of an operand (python's own tests, no library code) and what `iter()` would deliver """
+    abc = isinstance(v, Iterable)
+    try:
+        it_ = iter(v)
+        works = True
+    except TypeError:
+        it_, works = None, False
+    n_items = 0
+    if works and not abc:
+        try:
+            for _ in it.islice(it_, 4):
+                n_items += 1
+        except Exception:
+            pass
+    return {"abc": abc, "iter": works, "getitem": hasattr(type(v), "__getitem__"), "len": hasattr(type(v), "__len__"),
+            "n_items": n_items}
+
+
 class _Timeout(BaseException):
     pass
 
 
+_install_vec_ops()
 _AL = []
 
 
@@ -304,6 +429,16 @@ def dec_val(j):
             return tuple(dec_val(x) for x in j["Z"])     # a tuple element (what zip / enumerate deliver)
         if "B" in j:
             return xc.Boom(j["B"])  # an element on which every operation raises this exception
+        if "V" in j:
+            return Vec2(dec_val(j["V"][0]), dec_val(j["V"][1]))      # an indexable value object (no Iterable)
+        if "G" in j:
+            return Indexable([dec_val(x) for x in j["G"]])
+        if "LG" in j:
+            return LenIndexable([dec_val(x) for x in j["LG"]])
+        if "P" in j:            # the library's own polynomial: `__getitem__` that never raises, not iterable
+            return AL().Poly(dict((i, dec_val(x)) for i, x in enumerate(j["P"])))
+        if "TL" in j:           # the library's own lookup table: `__len__` + `__getitem__`, not iterable
+            return AL().TableLookup([dec_val(x) for x in j["TL"]])
         raise ValueError("unknown element encoding %r" % (j,))
     return j                        # int, bool, float, None
 
@@ -316,6 +451,8 @@ def canon(v):
         return "complex:nan"
     if isinstance(v, (list, tuple)):
         return "%s:[%s]" % (type(v).__name__, ",".join(canon(x) for x in v))
+    if type(v).__name__ == "TableLookup":
+        return "TableLookup:" + _stable_repr(v)
     if type(v) is int and v.bit_length() > 4000:
         return "int:huge:%d bits:%d" % (v.bit_length(), v % 1000003)      # (repr of such an int is refused by python 3.12)
     return "%s:%r" % (type(v).__name__, v)
@@ -385,7 +522,15 @@ def number(node, st=None, n=0):
         st["next"] += 1
         st["env"][i] = v
         return i
-    if k in ("scalar", "ignored"):
+    if k == "scalar" and is_object_enc(node["c"]):
+        # an OBJECT as operand: the driver is told what can be observed about it, the model classifies it
+        v = dec_val(node["c"])
+        ob = observe_operand(v)
+        i = fresh(v)
+        r = {"k": "operand", "c": i, "ignored": False, "abc": ob["abc"], "iter": ob["iter"], "getitem": ob["getitem"],
+             "len": ob["len"], "tag": 900000 + i,
+             "xs": [1000000 + 8 * i + q for q in range(ob["n_items"])]}     # atoms of what iter() would deliver: in no env
+    elif k in ("scalar", "ignored"):
         v = Ignored(node.get("c")) if k == "ignored" else dec_val(node["c"])
         r = {"k": k, "c": fresh(v)}
     elif k == "iterable":
@@ -1099,6 +1244,76 @@ def cross_cases(tier):
 
 
 # ------------------------------------------------------------------------------------------------
+# operand OBJECTS between "iterable" and "scalar": indexable but no Iterable (iter() works through __getitem__)
+# ------------------------------------------------------------------------------------------------
+def operand_objects(fam="sym"):
+    """ (name, element encoding, routes allowed) — objects whose own dunders could take a Stream are called directly """
+    if fam == "sym":
+        return [("Vec2", {"V": [{"S": "va"}, {"S": "vb"}]}, None),
+                ("Vec2.num", {"V": [2, {"F": [1, 2]}]}, None),
+                ("Indexable", {"G": [{"S": "g0"}, {"S": "g1"}]}, None),
+                ("LenIndexable", {"LG": [{"S": "h0"}, {"S": "h1"}, {"S": "h2"}, {"S": "h3"}, {"S": "h4"}]}, None),
+                ("LenIndexable.empty", {"LG": []}, None),
+                ("Poly", {"P": [1, 2]}, ["direct"]),
+                ("TableLookup", {"TL": [1, 2, 3, 4]}, ["direct"])]
+    return [("Vec2.num", {"V": [2, {"F": [1, 2]}]}, None), ("Vec2.int", {"V": [3, -2]}, None)]
+
+
+VEC_NUM = {
+    # streams of numbers against an exact vector, streams of vectors against a vector (`@`, `==`, lexicographic order)
+    "int": ([7, -3, 12, 5], ["add", "sub", "mul", "floordiv", "mod", "truediv", "pow", "and", "or", "xor", "lshift", "rshift", "eq", "ne", "lt"],
+            {"V": [3, 2]}),
+    "frac": ([{"F": [1, 2]}, {"F": [-2, 3]}, 3, 4, {"F": [5, 8]}], ["add", "sub", "mul", "truediv", "eq", "ne", "ge"], {"V": [{"F": [1, 2]}, 3]}),
+    "vec": ([{"V": [1, 2]}, {"V": [{"F": [1, 2]}, 3]}, {"V": [0, -1]}, {"V": [1, 2]}],
+            ["add", "sub", "mul", "matmul", "eq", "ne", "lt", "le", "gt", "ge"], {"V": [1, 2]}),
+}
+
+
+def operand_cases(rng, tier):
+    cases = []
+    # every binary dunder x object x route, Stream of tracer elements
+    for d in BIN_DUNDERS:
+        for (name, enc, allowed) in operand_objects("sym"):
+            for route in routes_for(d, "scalar"):
+                if allowed is not None and route not in allowed:
+                    continue
+                ls = rng.choice([1, 3, 3, 4])
+                prog = {"k": "bin", "d": d, "route": route, "s": stream_of(leaf(rng.choice(["list", "gen"]), sym_vals("a", ls))),
+                        "o": {"k": "scalar", "c": enc}}
+                cases.append(expr_case(prog, fam="sym", okind="object:" + name))
+    # real arithmetic
+    for fam, (sv, names, vec) in VEC_NUM.items():
+        for nme in names:
+            ds = ["__%s__" % nme] + (["__r%s__" % nme] if nme in ARITH else [])
+            for d in ds:
+                for route in routes_for(d, "scalar"):
+                    prog = {"k": "bin", "d": d, "route": route, "s": stream_of(leaf("list", sv)), "o": {"k": "scalar", "c": vec}}
+                    cases.append(expr_case(prog, fam="vec." + fam, okind="object:Vec2.num"))
+    # nested: the object on both sides of two levels, as the only argument of Stream(...), next to lists and endless operands
+    objs = operand_objects("sym")
+    for i in range(60 if tier == "quick" else 400):
+        (n1, e1, a1), (n2, e2, a2) = rng.choice(objs), rng.choice(objs)
+        d1, d2 = rng.choice(BIN_DUNDERS), rng.choice(BIN_DUNDERS)
+        inner_s = stream_of(leaf("list", sym_vals("p%d_" % i, rng.choice([2, 3, 5]))))
+        o1 = {"k": "scalar", "c": e1}
+        inner = {"k": "bin", "d": d1, "s": inner_s, "o": o1,
+                 "route": rng.choice([r for r in routes_for(d1, "scalar") if a1 is None or r in a1])}
+        shape = rng.choice(["obj", "list", "streamobj", "cycle"])
+        if shape == "obj":
+            o2, ok2 = {"k": "scalar", "c": e2}, "scalar"
+        elif shape == "list":
+            o2, ok2 = leaf("list", sym_vals("q%d_" % i, rng.choice([1, 2, 4]))), "list"
+        elif shape == "streamobj":
+            o2, ok2 = stream_of({"k": "scalar", "c": e2}), "Stream"
+        else:
+            o2, ok2 = {"k": "stream2", "a": {"k": "scalar", "c": e2}, "b": {"k": "scalar", "c": {"S": "z"}}}, "cycle"
+        rs = [r for r in routes_for(d2, ok2) if ok2 != "scalar" or a2 is None or r in a2]
+        prog = {"k": "bin", "d": d2, "s": inner, "o": o2, "route": rng.choice(rs)}
+        cases.append(expr_case(prog, fam="sym", okind="object:nested", n=6))
+    return cases
+
+
+# ------------------------------------------------------------------------------------------------
 # operand flavours: every iterator kind the library hands out or accepts, on either side of every builder branch
 # ------------------------------------------------------------------------------------------------
 class _Probe(object):
@@ -1425,6 +1640,8 @@ def rand_tree(rng, d, fam):
         return [rng.choice([-4, -3, -2, -1, 0, 1, 2, 3, 4, 5, 7]) for _ in range(n)]
 
     def scalar():
+        if rng.random() < 0.2:      # an indexable object that is no Iterable
+            return rng.choice([e for (_, e, a) in operand_objects(fam) if a is None])
         return {"S": "k%d" % rng.randint(0, 9)} if fam == "sym" else rng.choice([-2, -1, 0, 1, 2, 3])
 
     def flavoured(m, p, want_stream):
@@ -1509,6 +1726,7 @@ def generate(rng, tier, scale=1):
         cases += malformed_cases()
         cases += flavour_cross(rng, tier)
         cases += primary_cross(rng)
+        cases += operand_cases(rng, tier)
     ntree = (300 if tier == "quick" else 5000) * scale
     maxd = 4 if tier == "quick" else 6
     for i in range(ntree):
@@ -1547,6 +1765,12 @@ def tally(eng, c, io):
                 if nd["k"] == "bin":
                     base, refl = base_of(nd["d"])
                     osort = "scalar" if nd["o"]["k"] in ("scalar", "ignored") else "iterable"
+                    if nd["o"]["k"] == "scalar" and is_object_enc(nd["o"]["c"]):
+                        ob = observe_operand(dec_val(nd["o"]["c"]))
+                        eng.count("operand_object", "%s | %s | %s | Iterable=%s iter()=%s len=%s" % (
+                            [k_ for k_ in OBJECT_KEYS if k_ in nd["o"]["c"]][0], "rbinary" if refl else "binary",
+                            nd.get("route", "direct"), ob["abc"], ob["iter"], ob["len"]))
+                        eng.count("operand_object_dunder", nd["d"])
                     eng.count("builder_branch", ("rbinary" if refl else "binary") + "/" + osort)
                 else:
                     eng.count("builder_branch", "unary")
